@@ -1,4 +1,5 @@
 """C19 — meshes return what was stored; interpolation / quadrature structure."""
+from fractions import Fraction
 from .pdb import strip, walk, loc, ancestors
 from .terms import Ctx, num, show, lin_add, lin_sub, lin_mul
 from .common import (P, F, LEN, SIZE, GE, NE, effects, callee_path, call_args, in_macro, effective_guards, index_requirements, facts_x, ctor_summary,
@@ -287,7 +288,54 @@ def run(rep, pdb, tier):
             g = "%s::get_nodes_vars" % M1
             L, R = ("call", g, P(0), k), ("call", g, P(0), k1)
             want = ("op", "+", L, ("op", "*", ("op", "/", ("op", "-", R, L), ("op", "-", xk1, xk)), ("op", "-", P(1), xk)))
-            okv = e.value == want
+
+            def _at(t, x):
+                """the value term with x_pos := x, simplified with floating-point-exact rewrites only (t - t = 0, 0 * y = 0 and
+                y + 0 = y for finite values, x == x for a non-NaN coordinate); (a / b) * b is NOT rewritten to a"""
+                if not isinstance(t, tuple):
+                    return t
+                if t == P(1):
+                    return x
+                t = tuple(_at(c, x) if isinstance(c, tuple) else c for c in t)
+                zero = num(0)
+                if t[0] == "op" and len(t) == 4:
+                    o, a_, b_ = t[1], t[2], t[3]
+                    if o == "-" and a_ == b_:
+                        return zero
+                    if o == "*" and zero in (a_, b_):
+                        return zero
+                    if o == "+" and b_ == zero:
+                        return a_
+                    if o == "+" and a_ == zero:
+                        return b_
+                    if o == "-" and b_ == zero:
+                        return a_
+                    if o in ("==", "!=") and a_ != b_ and a_[0] == "idx" and b_[0] == "idx" and a_[1] == b_[1] == NODES and \
+                            lin_sub(a_[2], b_[2])[0] == "num" and lin_sub(a_[2], b_[2])[1] != 0:
+                        return ("false",) if o == "==" else ("true",)      # the property's grids are strictly increasing: distinct nodes differ
+                    if o in ("==", "<=", ">=") and a_ == b_:
+                        return ("true",)
+                    if o in ("!=", "<", ">") and a_ == b_:
+                        return ("false",)
+                if t[0] == "ite" and t[1] == ("true",):
+                    return t[2]
+                if t[0] == "ite" and t[1] == ("false",):
+                    return t[3]
+                return t
+
+            def _generic(t):
+                """the value at a point that is not a node: `x_pos == x[..]` tests are false"""
+                if isinstance(t, tuple) and t and t[0] == "ite" and t[1][0] == "op" and t[1][1] in ("==", "!=") and P(1) in (t[1][2], t[1][3]):
+                    return _generic(t[3] if t[1][1] == "==" else t[2])
+                return t
+            okv = _generic(e.value) == want
+            # nodal values are reproduced exactly: at x_pos = x[node] the formula is left + slope * 0; the FINAL node is no
+            # cell's left end, so the same must hold at the right end x_pos = x[node+1] (left + ((right-left)/dx)*dx is not
+            # `right` in floating point)
+            at_l, at_r = _at(e.value, xk), _at(e.value, xk1)
+            rep.add("interpolation/nodal-exact", "at x_pos = x[node] the assigned value reduces to vars(node), and at x_pos = x[node+1] to vars(node+1) (the final node is matched only as a "
+                    "right-hand end), using floating-point-exact simplifications only: t - t = 0, s * 0 = 0, v + 0 = v -- never (a / b) * b = a",
+                    at_l == L and at_r == R, e.node, "value at the left node: %s; at the right node: %s" % (show(at_l, ctx)[:160], show(at_r, ctx)[:200]))
             ifs = [a for a in ancestors(e.node) if a.get("k") == "If"]
             okb = False
             if ifs:
@@ -295,12 +343,37 @@ def run(rep, pdb, tier):
                 # ((x[k] < x_pos) && (x[k+1] > x_pos)) || |x[k]-x_pos| < eps || |x[k+1]-x_pos| < eps
                 s = repr(c)
                 okb = repr(("op", "<", xk, P(1))) in s and repr(("op", ">", xk1, P(1))) in s and repr(("op", "-", xk, P(1))) in s and repr(("op", "-", xk1, P(1))) in s
+            # the snapping window around a node: the property lets points closer than 1e-7 to a node use the neighbouring
+            # cell's line, and requires every point at least 1e-6 away to be interpolated in its own cell: each
+            # |x[..] - x_pos| comparison must be against a literal not larger than 1e-6 (a window that grows with the
+            # mesh extent or with the coordinates swallows such points)
+            oksnap, snaps = True, []
+            if ifs:
+                def _has_abs(t):
+                    return isinstance(t, tuple) and ((t[0] == "call" and str(t[1]).endswith("abs")) or any(_has_abs(x) for x in t if isinstance(x, tuple)))
+
+                def _cmp_nodes(t):
+                    if isinstance(t, tuple):
+                        if t and t[0] == "op" and len(t) == 4 and t[1] in ("<", "<=", ">", ">="):
+                            yield t
+                        for x in t:
+                            if isinstance(x, tuple):
+                                yield from _cmp_nodes(x)
+                for cmp_ in _cmp_nodes(ctx.term(ifs[0]["cond"])):
+                    a_, b_ = cmp_[2], cmp_[3]
+                    if _has_abs(a_) or _has_abs(b_):
+                        other = b_ if _has_abs(a_) else a_
+                        other = ctx.def_term(other) if other[0] == "var" and ctx.def_term(other) is not None else other
+                        good = other[0] == "num" and 0 < other[1] <= Fraction(1, 10**6)
+                        snaps.append(show(other, ctx))
+                        oksnap = oksnap and good
+            okb = okb and oksnap
             okr = r[1:5] == (num(0), lin_add(SIZE(NODES), num(-1)), False, False)
             rb = ctx.binds.get(e.target[1])
             ri = ctx.term(rb.init) if rb is not None and rb.init is not None else None
             okz = ri is not None and ri[0] == "call" and str(ri[1]).endswith("Vector<T>::new") and ri[2] == NV
             ok = okv and okb and okr and okz and ctx.term(fn["body"]["expr"]) == e.target
-            det = "formula=%s bracket on the same cell=%s cells 0..len-1=%s result has nvars entries=%s" % (okv, okb, okr, okz)
+            det = "formula=%s bracket on the same cell=%s (snap windows %s, each a literal <= 1e-6: %s) cells 0..len-1=%s result has nvars entries=%s" % (okv, okb, snaps, oksnap, okr, okz)
         rep.add("interpolation", rule, ok, fn["body"], det, where=loc(fn["body"]))
     # ---- io agreement
     w, rd = pdb.fn("%s::output" % M1), pdb.fn("%s::read" % M1F)
